@@ -243,7 +243,7 @@ def results_md():
         r = m.get("checks_run") or m.get("checks_run_earlier", {})
         cells = "; ".join("%s: exit %s %s" % (x["property"], x["exit"], ", ".join(sorted(x["violation_keys"]))[:160]) for x in r.get("results", []))
         if "checks_run" not in m and cells:
-            cells += " (earlier run, see meta.json)
+            cells += " (earlier run, see meta.json)"
         tests = c.get("pinned_suite_with_patch", "?")
         if c.get("t_db_alone"):
             tests += " (t-db alone: %s)" % "/".join(c["t_db_alone"])
